@@ -103,7 +103,7 @@ func ParseQuery(query string) (*Query, error) {
 			if err != nil {
 				return nil, err
 			}
-			limit, err := strconv.ParseUint(limitSnippet.text, 10, 31)
+			limit, err := strconv.ParseUint(limitSnippet.text, 10, strconv.IntSize-1)
 			if err != nil {
 				return nil, fmt.Errorf("could not parse integer (%s) at position %d", limitSnippet.text, limitSnippet.globalPosition)
 			}
@@ -118,7 +118,7 @@ func ParseQuery(query string) (*Query, error) {
 			if err != nil {
 				return nil, err
 			}
-			offset, err := strconv.ParseUint(offsetSnippet.text, 10, 31)
+			offset, err := strconv.ParseUint(offsetSnippet.text, 10, strconv.IntSize-1)
 			if err != nil {
 				return nil, fmt.Errorf("could not parse integer (%s) at position %d", offsetSnippet.text, offsetSnippet.globalPosition)
 			}
